@@ -118,6 +118,7 @@ fn main() {
         soft_limit: Duration::from_secs(std::env::var("VERIF_SOFT_LIMIT").ok().and_then(|s| s.parse::<u64>().ok()).unwrap_or(if tier == Tier::Quick { 150 } else { 1500 })),
     };
     report::init_output();
+    report::start_hang_monitor(&ctx);
     // global watchdog: a run that takes several times its budget is inconclusive, never a violation
     let hard = if tier == Tier::Quick { 900 } else { 7200 };
     let wid = id.clone();
